@@ -200,7 +200,11 @@ namespace nmtools::view
             } else if constexpr (is_none_v<indices_type>) {
                 static_assert( meta::is_num_v<m_array_type>
                     , "invalid source array for indexing view" );
-                return array;
+                // hand the element (a number) to the consumer, not the alias view object wrapping it:
+                // with a class-typed operand `t > u ? t : u`, `c ? x : y` and common_type pick the other
+                // operand's type and a wider scalar is truncated (maximum(int{8,-18}, -3.75) gave {8,-3})
+                using element_t = meta::get_element_type_t<m_array_type>;
+                return static_cast<element_t>(array);
             } else {
                 return apply_at(array,indices);
             }
